@@ -20,7 +20,7 @@ CHECKS = {
          "Only well-formed validators are asserted (lenient list syntax / malformed dates: no claim). k = (3,1)/(1,3) quick, (4,2)/(2,4) thorough.", "3/C04"),
  "C05": ("serve_mc", "exhaustive enumeration of If-Range values (near-miss validators, dates in three formats, all short byte strings over the parser's branch characters) x Range shapes x entity validators",
          "206 (or 416) is admitted only if If-Range is absent or byte-identical to a strong entity ETag, and then must be exactly what C03 prescribes; every other value must yield the complete 200 without Content-Range.",
-         "Arbitrary-bytes part is exhaustive up to length 3 (quick) / 4 (thorough) over a 7-symbol alphabet.", "3/C05"),
+         "Arbitrary-bytes part is exhaustive up to length 4 (quick) / 6 (thorough) over a 7-symbol alphabet.", "3/C05"),
  "C06": ("serve_mc", "exhaustive enumeration of 2..8-range sets x lengths x entity header sets x If-Range x per-part chunkings; independent multipart parser as oracle",
          "Every multipart body produced is parsed back by an independent verifier (boundary from Content-Type, per-part delimiter/Content-Range/entity headers/blank line/descriptor-exact bytes, closing delimiter) and its parsed length compared with Content-Length; covers decimal-width changes, 200-byte entity headers, L up to 2^64-1.",
          "4..8-range tuples are a stated subset (rotations and stride-2 walks of the base list).", "3/C06"),
@@ -29,34 +29,34 @@ CHECKS = {
          "Range lengths {1,2,5} (thorough adds 100 and 70000); <= 4..5 events per stream.", "3/C07"),
  "C08": ("stream_mc", "exhaustive enumeration of all operation histories (write/write_all/flush/poll/poll-until-pending/drop) up to a depth on the real BodyWriter + Body, reference model = byte vector and cursors checked after every operation",
          "Every history up to depth 4..6 (by chunk size) over the full write-size alphabet 0..3c for c in {1,2,3,4} and boundary sizes for {7,4096,65536} is executed from the initial state; prefix property, non-empty frames, at-least-one-byte acceptance, flush availability (Pending only after everything flushed was delivered) and the clean end are checked at every step. States at depth D-1 vs D are reported to show saturation.",
-         "Depth-bounded; 'random long histories' of the quantifier are not used as evidence (saturation argument instead).", "3/C08"),
+         "Product is depth-bounded (4..6); beyond that only the 'long and narrow' family (a 1-3 operation unit repeated up to 100 / 1000 times, realistic chunk sizes) reaches the 7th+ operation and hundreds of queued chunks. No random histories are used as evidence.", "3/C08"),
  "C09": ("stream_mc", "exhaustive enumeration of write/flush/poll/drop histories x gzip levels 1..9 x chunk sizes x payload classes; independent gzip member parser + CRC-32 + streaming inflater as oracle",
          "After every successful flush the streaming inflater, fed only the frames delivered so far, must reproduce everything written before it; after writer drop the body must be exactly one gzip member (header, final block, CRC-32, ISIZE, no trailing bytes) of the written bytes; chunk size 1 puts every header/trailer byte in its own frame.",
-         "Depth 3 (quick) / 4 (thorough). miniz_oxide::inflate is in the trusted base (thorough tier cross-checks distinct bodies with C zlib via python).", "3/C09"),
+         "Depth 3 (quick) / 4 (thorough) for the product; plus large incompressible writes (40 000 / 200 000 bytes), a flush 'ramp' (every total up to 140 000 / 280 000 bytes in 500-byte writes, every level) and long repeated units. miniz_oxide::inflate is in the trusted base (thorough tier cross-checks distinct bodies with C zlib via python).", "3/C09"),
  "C11": ("stream_mc+sched_mc", "exhaustive enumeration of histories with abort / body-drop at every position (raw and gzip writers), byte-counting allocator for queue release",
          "After abort: next terminal event is the abort error (never clean end, never Pending), delivered bytes a prefix, is_end_stream false until delivered, later write/flush fail. After body drop: flush with unflushed bytes and chunk-completing writes fail, everything after the first error fails, the writer is told within write(c),flush,write,flush, and the queued chunks are released (live heap measured).",
          "Sequential part depth 3..5; the concurrent part is C10's scheduler exploration (programs containing abort and consumer variants that drop the body).", "3/C11"),
  "C16": ("neg_mc", "exhaustive enumeration of the Accept-Encoding list language (0..3/4 distinct codings x 11 weights x 4 whitespace styles) against an independent RFC 7231 5.3.4 evaluator; all short byte strings for the no-panic clause",
          "should_gzip is compared with the evaluator on every enumerated grammatical value (identity default = least-preferred acceptable, qualities in thousandths); repeated codings, every byte string of length <= 5/6 over 12 symbols and every weight string of length <= 6 over {0,1,9,.} must not panic.",
-         "Upper-case codings / 'Q=' / duplicate codings: no claim (statement silent).", "3/C16"),
+         "Upper-case codings / 'Q=' / duplicate codings: no claim (statement silent). Also lists of up to 42 distinct codings with the deciding elements first and last.", "3/C16"),
  "C17": ("neg_mc+stream_mc", "exhaustive enumeration of Accept-Encoding values x gzip level 0..9 x chunk sizes x methods x request representation, real streaming_body + independent decoder",
          "Vary names accept-encoding; Content-Encoding: gzip iff evaluator prefers gzip and level > 0; body sniffed: says gzip <=> exactly one gzip member of the payload, else payload verbatim; Request and Parts representations agree; HEAD same headers and no writer.",
          "Accept-Encoding values: all C16 lists of <= 2 elements + 20 hand-picked; payloads {0, 300 bytes}.", "3/C17"),
  "C10": ("sched_mc", "stateless exhaustive exploration of thread interleavings of the real code under a controlled scheduler (decision points: every acquisition of the instrumented mutex, wake(), park, wait, environment choices), depth-first over choice vectors with iterative preemption bounding",
          "Every schedule of {producer program} || {consumer loop} for all programs up to length 3 (quick) / 4 (thorough) with unbounded preemptions, longer programs and environment choices (fresh waker per poll, spurious re-polls) at preemption bound 1..2, abort programs, gzip writer; deadlock (= lost wake-up) detection, delivered == accepted on clean end, abort => error, bounded polls after the writer is gone. Each violating schedule is replayed and must reproduce.",
-         "Scheduling granularity = lock acquisition / wake / park (complete for safe code over one Mutex, no atomics); preemption bounds and program lengths as listed in the evidence; no partial-order reduction.", "2.4, 3/C10"),
+         "Scheduling granularity = lock acquisition / wake / park (complete for safe code over one Mutex, no atomics); preemption bounds, budgets, caps and program lengths per family are listed in the evidence (thorough: all programs <= 4 ops unbounded, 5 ops at bound 3, 6 ops at bound 2, environment choices at bound 2-3, gzip writer at bound 3 -- the gzip family can hit its per-program cap, in which case `exhaustive` is false); no partial-order reduction.", "2.4, 3/C10"),
  "C18": ("fs_mc", "exhaustive enumeration of file sizes x ranges x truncation/growth fault points (before every poll) on real files, std::fs as reference",
          "Every range with start/end on, just before and just after the 64 KiB read boundaries, for seven file sizes, read through get_range and through serve(); truncation to every interesting length before every poll: error within a bounded number of polls, never a clean short end, delivered bytes unchanged; metadata and ETag stability / sensitivity (append, mtime +1s, +1ns, replaced inode); non-regular files refused.",
-         "Runs on the sandbox file system (ns-granular mtimes are probed and the +1ns case is counted as skipped if the fs truncates them).", "3/C18"),
+         "Runs on the sandbox file system (ns-granular mtimes are probed and the +1ns case is counted as skipped if the fs truncates them). Ranges of >= 2^32 bytes are read from a sparse file (first chunks in quick, to the end in thorough).", "3/C18"),
  "C19": ("fs_mc", "exhaustive enumeration of path strings (1..3/4 segments over 9 segment kinds, slashes, NUL at every position) x Accept-Encoding x auto_gzip against a fixture tree, std::fs + independent negotiation evaluator as reference",
          "Lexical rule decides rejection (InvalidInput); accepted paths must open exactly the inode std::fs opens for base/path (or its .gz sibling when substitution applies), with the same error kind on failure, always inside the base directory; encoding()/add_encoding_headers consistent.",
-         "No symlinks in the fixture (documented non-goal of the crate); the empty path is excluded from the equality oracle only.", "3/C19"),
+         "No symlinks in the fixture (documented non-goal of the crate); the empty path is excluded from the equality oracle only. Includes names of 250..256 bytes (NAME_MAX boundary for the .gz sibling) and a 250+-byte path of short segments.", "3/C19"),
  "C12": ("serve_mc+stream_mc", "per-step monitor (size_hint, is_end_stream sampled before every poll) attached to every execution of the C01, C06, C08, C09, C11 explorations, plus all Body::from conversions",
          "Retrospective check on every sample of every explored body: lower <= bytes still delivered <= upper on clean ends, exact hints for serve/Body::from bodies, is_end_stream never followed by bytes or an error, streaming body never at end while chunks or an abort are pending.",
          "Same bounds as the explorations it rides on.", "3/C12"),
  "C13": ("serve_mc", "exhaustive enumeration of all byte strings up to a length bound over the parsers' branch characters in each of six request headers, boundary numbers, repeated lines, header pairs, 11 methods, 12 entities",
          "No panic in serve() or while draining (+3 polls), status within the documented set, 405 + Allow + no entity read for other methods. Both with overflow checks/debug assertions on and (thorough) off.",
-         "'Arbitrary bytes' is bounded-exhaustive over a 14-symbol alphabet (length <= 3 quick, <= 4 thorough after 4 prefixes), not all strings.", "3/C13"),
+         "'Arbitrary bytes' is bounded-exhaustive over a 14-symbol alphabet (length <= 4 quick, <= 6 thorough, after each of 4 prefixes), not all strings.", "3/C13"),
  "C14": ("serve_mc", "exhaustive enumeration of two-request histories (first response's served validators echoed in every subset) x validators x mtimes x header sets",
          "Second requests are built from the bytes the real first response carried; outcome derived from the echoed subset alone; first responses checked for Accept-Ranges, ETag, Date/Last-Modified relation, entity header presence/absence per status.",
          "Wall clock not controlled: past mtimes are decades old; date echoes for the future mtime are excluded.", "3/C14"),
